@@ -954,7 +954,8 @@ func one(rep *core.Report, sel Select, c Case, l sim.Layout, variant string, k i
 			chk("after-the-next-commit")
 		}
 	}
-	if sel.has("mount") && len(w.node.Exits()) == 0 {
+	// (not when the injected fault IS a refused cache notification: the stale page is then the fault itself)
+	if sel.has("mount") && c.Kind != "notify" && len(w.node.Exits()) == 0 {
 		rep.Eval(1)
 		if stale := w.mountView(); len(stale) > 0 {
 			v("mount", "application-reads-stale-pages-through-the-mount", "after the failed operation and what followed, an application that had the database in its page cache reads pages through the mount that differ from the database file", map[string]any{"stale_pages": stale})
